@@ -51,6 +51,14 @@ CONFIG = {
              "callback outcomes ok/no/error x message lengths 0..70000 incl. 252/253/254 and 65533/65534; 2-64 concurrent connections with per-connection answers; "
              "every reply decoded by sasl.Response.Decode and by the model of the PAM reader; non-trivial = callback invoked or stream longer than 2 bytes; distinct = distinct case terms",
     ),
+    "C07": dict(
+        drivers=[("cmd/whawty-auth", "main")], run="C07", shard=2, header="From Whawty Require Import Session.",
+        rule="two factory instances; tokens issued for names with and without ':' and both flags; tokens sealed by the driver with chosen plaintexts "
+             "(ages on both sides of the lifetime, +-2^62, int64 edges, lenient flag spellings, non-numeric or missing fields); presented to instance A: every issued token, "
+             "single-character mutations of the text, EVERY single-bit mutation of nonce||ciphertext, every prefix and suffix of the text, truncated/extended nonce and ciphertext, "
+             "all nonce/ciphertext splices (incl. the other instance), the other instance's tokens, garbage, random well-formed and random byte strings; 2000 issuances checked for nonce reuse; "
+             "a case is a batch of 400 presentations; non-trivial = every batch; distinct = distinct batch terms",
+    ),
     "C13": dict(
         drivers=[("sasl", "sasl")], run="C13", shard=600, header="From Whawty Require Import SaslCodec.",
         rule="cases: boundary-length encodes (exhaustive over {0,1,255,256,257}^4 + 65535/65536), every byte string up to length 5 (7 thorough) "
